@@ -621,11 +621,15 @@ impl World {
 	pub fn mine(&mut self, to: Option<&str>, include: &[String]) -> Value {
 		let prev = self.chain.head_header().unwrap();
 		let mut txs = vec![];
+		let mut included = vec![];
 		for n in include {
 			if let Some(tx) = self.slates.get(n).and_then(|r| r.final_tx.clone()) {
 				txs.push(tx);
+				included.push(n.clone());
 			}
 		}
+		let requested = include;
+		let include = &included[..];
 		let fees: u64 = txs.iter().map(|t| t.fee()).sum();
 		let height = prev.height + 1;
 		let (cbname, out, kern) = match to {
@@ -678,7 +682,7 @@ impl World {
 				for n in include {
 					self.posted.remove(n);
 				}
-				json!({"ev": "mine", "to": to.unwrap_or(""), "cb": cbname, "txs": include, "res": "ok"})
+				json!({"ev": "mine", "to": to.unwrap_or(""), "cb": cbname, "txs": include, "requested": requested, "res": "ok"})
 			}
 			Err(e) => {
 				json!({"ev": "mine", "to": to.unwrap_or(""), "cb": cbname, "txs": include, "res": "err:block", "detail": e})
